@@ -1,7 +1,7 @@
 """C15 - events run their handlers in order, isolated, on shared globals."""
 import json
 
-from . import machine
+from . import docex, machine
 from .common import HarnessError
 
 replay_one = machine.replay_one
@@ -30,8 +30,10 @@ def run(chk):
     cases = machine.expand(res.cases, "ev", layouts=lys)
     chk.rule = ("7 handler sets (all parameters / none / `_`; locals shadowing globals; early return) x all event "
                 "sequences up to length %d over key, down, up, move, animate, input with payloads, each also as a twin "
-                "program calling equivalent procedures; effects after every delivery and the result are compared; "
-                "non-trivial = distinct (program, event sequence) with >= 1 delivered event" % maxev)
+                "program calling equivalent procedures; effects after every delivery and the result are compared; the repository's sample programs that declare handlers, exported from the real "
+                "parser's tree, under event sequences drawn from the seed; non-trivial = distinct (program, event sequence) with >= 1 delivered event" % maxev)
     chk.exhaustive = True
+    # the repository's sample programs with handlers (games, animations) under seeded event sequences
+    cases += docex.samples(chk, chk.tier)
     machine.replay_family(chk, cases)
     chk.extra["handler_vs_procedure_pairs_equal_in_model"] = len(pairs)
